@@ -80,6 +80,15 @@ func checkC01(r *Result) []Violation {
 		}
 	}
 	out = append(out, checkInline(r, "C01")...)
+	// shared subscriptions are selected by the same matching rules: a share group whose filter matches (all members
+	// connected, none of them holding another matching subscription) has a member that receives the message. Which
+	// member, and that it is only one, is C06's business.
+	for _, v := range checkC06(r) {
+		if v.Property == "C06" && v.Class == "no-member-chosen" {
+			v.Property, v.Class = "C01", "matching-shared-subscription-not-selected"
+			out = append(out, v)
+		}
+	}
 	return out
 }
 
@@ -393,8 +402,16 @@ func checkC06(r *Result) []Violation {
 					"group_filters", strings.Join(fl, ","), "distinct_filters", fmt.Sprint(len(fl))))
 			}
 			if chosen == 0 && !hookSeenAny(r, w, "publish_dropped") {
+				// did a member get its session by taking another connection over? (the known takeover race can remove
+				// the new connection's subscriptions, shared ones included)
+				tk := "false"
+				for _, id := range members {
+					if s := m.Sess[id]; s != nil && strings.Contains(s.Origin, "takeover") {
+						tk = "true"
+					}
+				}
 				out = append(out, viol("C06", "no-member-chosen", fmt.Sprintf("publish op %d %s: no member of share group %q (%v) received it", oi, op.Pkt, g, members), w.EndSeq,
-					"group_filters", strings.Join(fl, ",")))
+					"group_filters", strings.Join(fl, ","), "member_taken_over", tk))
 			}
 		}
 	})
